@@ -18,7 +18,6 @@ import tempfile
 
 MAXV = 8
 COUNT = {}
-FAIL = "FAIL"
 
 KNOWN_EXT = ("dictionary-form recipe {query: dic-k/d.json, filename: d.djson}: the bytes stored under the key d.djson are the 'json' serialisation (the extension "
              "of the query) instead of the 'djson' format of the key's extension; Context._store_state encodes with state.metadata['extension'], not with the "
@@ -527,6 +526,9 @@ def canonical_histories(run):
     bad = [k for k in keys if not run.succeeds(k)]
     refs = [k for k in good if run.dep(k)]
     out = []
+    for k in good:
+        if run.entry[k]["qname"] != run.entry[k]["name"] and ext_of(run.entry[k]["qname"]) != ext_of(run.entry[k]["name"]):
+            out.append([("read", k)])
     for k in good[:3] + refs[-2:]:
         out.append([("observe",), ("read", k), ("observe",), ("read", k)])
         out.append([("read", k), ("remove", k), ("observe",), ("read", k)])
@@ -580,10 +582,10 @@ def bounded(tier, seed):
                 entries = programs[v]
                 probe = World(config, entries)
                 try:
-                    ncanon = len(canonical_histories(Run(probe, None, [], {})))
+                    canon = canonical_histories(Run(probe, None, [], {}))
                 finally:
                     probe.close()
-                idx = [i for i in range(ncanon) if tier != "quick" or (i + ci) % 5 == 0]
+                idx = [i for i in range(len(canon)) if tier != "quick" or (i + ci) % 5 == 0 or len(canon[i]) == 1]
                 for i in idx:
                     cases += 1
                     distinct.add((config, v, "canonical", i))
